@@ -1,9 +1,12 @@
 (* C12 — PGP fingerprint, key ID, algorithm, usage and dates are exact.
    Only statements; proofs are in Proofs/PgpKey.v and Proofs/PgpEntity.v.
 
-   [fixed] is the repaired code, [legacy] the code as found; H is SHA-1 and stays abstract;
-   [ecok] (elliptic.Unmarshal succeeded) stays abstract too. *)
-From WI Require Import Lib.Base Lib.Info Lib.Time gen.PgpTables Model.PgpKey Model.PgpEntity Proofs.PgpKey Proofs.PgpEntity.
+   [fixed] is the repaired code, [legacy] the code as found; the first group of fingerprint theorems
+   holds for an arbitrary hash function H; the group "SHA-1 inside the model" at the end instantiates
+   it with Lib/Sha1.sha1 (FIPS 180-4 in Gallina; proofs in Proofs/Sha1.v and Proofs/PgpSha1.v);
+   [ecok] (elliptic.Unmarshal succeeded) stays abstract. *)
+From WI Require Import Lib.Base Lib.Info Lib.Time Lib.Sha1 gen.PgpTables Model.PgpKey Model.PgpEntity
+  Proofs.PgpKey Proofs.PgpEntity Proofs.Sha1 Proofs.PgpSha1.
 Open Scope N_scope.
 
 (* T1: the algorithm-name table, the curve OIDs, the hash ids, the signing algorithms, the key-flag
@@ -290,3 +293,89 @@ Theorem C12_F42_refuted :
   sel_self fixed None [f42_new; f42_old] = Some f42_new.
 Proof. split; [exact sel_self_legacy_last | split; [exact f42_legacy | exact f42_fixed]]. Qed.
 Print Assumptions C12_F42_refuted.
+
+(* ---- SHA-1 inside the model (Lib/Sha1.v): no hash parameter ---- *)
+
+(* the digest of EVERY octet string is exactly 20 octets, each below 256 *)
+Theorem C12_sha1_digest_shape : forall l,
+  length (sha1 l) = 20%nat /\ bytes_ok (sha1 l) = true /\ (forall x, In x (sha1 l) -> x < 256).
+Proof. exact sha1_digest_shape. Qed.
+Print Assumptions C12_sha1_digest_shape.
+
+(* FIPS 180-4 5.1.1 / 6.1.2: the padded message starts with the message, is a whole number of
+   512-bit blocks, and the block loop compresses every one of them (its fuel is never exhausted:
+   more fuel does not change the result) *)
+Theorem C12_sha1_padding : forall l,
+  take (length l) (sha1_pad l) = l /\ (length (sha1_pad l) mod 64 = 0)%nat /\
+  forall extra s, sha1_blocks (S (Nat.div (length (sha1_pad l)) 64) + extra) s (sha1_pad l) =
+                  sha1_blocks (S (Nat.div (length (sha1_pad l)) 64)) s (sha1_pad l).
+Proof. exact sha1_padding. Qed.
+Print Assumptions C12_sha1_padding.
+
+(* FIPS 180-4 6.1.2 step 1, for EVERY 16-word block: the schedule has 80 words, W_t = M_t for t < 16 and
+   W_t = ROTL^1 (W_(t-3) xor W_(t-8) xor W_(t-14) xor W_(t-16)) for 16 <= t < 80; a 64-octet block has 16
+   words; the word operations are addition mod 2^32 and stay below 2^32 *)
+Theorem C12_sha1_schedule : forall w16, length w16 = 16%nat ->
+  length (schedule w16) = 80%nat /\
+  (forall t, (t < 16)%nat -> nth t (schedule w16) 0 = nth t w16 0) /\
+  (forall t, (16 <= t < 80)%nat ->
+     nth t (schedule w16) 0 =
+       rotl32 1 (N.lxor (N.lxor (nth (t - 3) (schedule w16) 0) (nth (t - 8) (schedule w16) 0))
+                        (N.lxor (nth (t - 14) (schedule w16) 0) (nth (t - 16) (schedule w16) 0)))).
+Proof. exact sha1_schedule. Qed.
+Print Assumptions C12_sha1_schedule.
+
+Theorem C12_sha1_words : (forall blk, length blk = 64%nat -> length (words_of blk) = 16%nat) /\
+  (forall a b, add32 a b = (a + b) mod 2 ^ 32) /\ (forall n x, rotl32 n x < 2 ^ 32).
+Proof. exact sha1_words. Qed.
+Print Assumptions C12_sha1_words.
+
+(* RFC 4880 12.2 with the model's own SHA-1: for every well-formed v4 public (sub)key packet body the
+   fingerprint is sha1 (0x99 || 2-octet length || body), and the description shows it as 40 upper-case
+   hex digits without separators (strings.ToUpper(hex.EncodeToString(pk.Fingerprint[:]))) *)
+Theorem C12_fingerprint_sha1 : forall ecok body k, bytes_ok body = true ->
+  parse_public_key fixed ecok body = Ok (k, []) ->
+  let fp := sha1 (153 :: be16 (lenN body) ++ body) in
+  fingerprint sha1 k = fp /\
+  In (bs "Fingerprint", hex_of true fp) (describe_key sha1 k) /\
+  length (hex_of true fp) = 40%nat /\
+  forallb upper_hex_digit (hex_of true fp) = true.
+Proof. exact fingerprint_sha1. Qed.
+Print Assumptions C12_fingerprint_sha1.
+
+(* the key ID is octets 12..19 of that digest (= the digest mod 2^64), shown as 16 upper-case hex digits *)
+Theorem C12_keyid_sha1 : forall ecok body k, bytes_ok body = true ->
+  parse_public_key fixed ecok body = Ok (k, []) ->
+  let fp := sha1 (153 :: be16 (lenN body) ++ body) in
+  key_id sha1 k = be_to_N (drop 12 fp) /\
+  key_id sha1 k = be_to_N fp mod 2 ^ 64 /\
+  In (bs "Key ID", hex_of true (drop 12 fp)) (describe_key sha1 k) /\
+  length (hex_of true (drop 12 fp)) = 16%nat /\
+  forallb upper_hex_digit (hex_of true (drop 12 fp)) = true.
+Proof. exact keyid_sha1. Qed.
+Print Assumptions C12_keyid_sha1.
+
+(* for EVERY key (no parsing hypothesis): a Fingerprint and a Key ID attribute exist, every Fingerprint
+   attribute is the upper-case hex of the SHA-1 of the key's hashed form - exactly 40 hex digits, no
+   separators -, every Key ID attribute its last 8 octets - exactly 16 hex digits *)
+Theorem C12_fingerprint_length : forall k,
+  (exists v, In (bs "Fingerprint", v) (describe_key sha1 k)) /\
+  (exists v, In (bs "Key ID", v) (describe_key sha1 k)) /\
+  (forall v, In (bs "Fingerprint", v) (describe_key sha1 k) ->
+     v = hex_of true (sha1 (key_hash_input k)) /\ length v = 40%nat /\ forallb upper_hex_digit v = true) /\
+  (forall v, In (bs "Key ID", v) (describe_key sha1 k) ->
+     v = hex_of true (drop 12 (sha1 (key_hash_input k))) /\ length v = 16%nat /\ forallb upper_hex_digit v = true).
+Proof. exact fingerprint_length. Qed.
+Print Assumptions C12_fingerprint_length.
+
+(* ... and for every description the model produces from a packet stream with SHA-1 as the hash: the
+   primary key and every listed subkey show 40 / 16 upper-case hex digits *)
+Theorem C12_description_fingerprints_sha1 : forall c P private stream i,
+  (forall m, p_H P m = sha1 m) ->
+  pgp_key c P private stream = Ok i ->
+  attr_digits (bs "Fingerprint") 40 i /\ attr_digits (bs "Key ID") 16 i /\
+  (exists v, In (bs "Fingerprint", v) (i_attrs i)) /\
+  forall ch, In ch (i_children i) -> i_desc ch = bs "GPG/PGP subkey" ->
+    attr_digits (bs "Fingerprint") 40 ch /\ attr_digits (bs "Key ID") 16 ch.
+Proof. exact description_fingerprints_sha1. Qed.
+Print Assumptions C12_description_fingerprints_sha1.
